@@ -848,6 +848,36 @@ def pending_across_wraps(rng, first_id=960, timeouts=(1, 5, 10, 1000)):
     return out
 
 
+def edge_timeouts(rng, first_id=980, sleep=False):
+    """Timeouts at the edge of what the clock can represent WHEN THE SCANNER IS MADE (`to` = -100 - k: k seconds
+    below the longest timeout whose deadline `now + timeout` is representable; the executor finds it by bisection
+    through `checked_add`).  For the specification they are infinite; for the code `now + timeout` is representable
+    at creation and no longer once time has passed.  With `sleep` the steps are real waits (production configuration)."""
+    out = []
+    iid = first_id
+    for k in (0, 1, 2, 3, 10):
+        for first in (6, 38):
+            c = rng.randrange(16)
+            out.append({"op": "new", "id": iid, "k": "poll", "to": -100 - k})
+            out += [{"op": "feed", "id": iid, "m": [176 + c, 99, 3]}, {"op": "feed", "id": iid, "m": [176 + c, 98, 37]}]
+            step = {"op": "tick", "id": iid, "dt": 1100 if sleep else rng.choice([1, 1000, 2500, 11000])}
+            if sleep:
+                step["sleep"] = True
+            out.append(step)
+            out.append({"op": "feed", "id": iid, "m": [176 + c, first, rval(rng)]})          # starts the wait
+            out.append({"op": "poll", "id": iid, "ch": c})
+            out.append({"op": "tick", "id": iid, "dt": 1 if sleep else rng.choice([1, 5000, 10 ** 6])})
+            out.append({"op": "feed", "id": iid, "m": [176 + c, 6, rval(rng)]})              # re-arms / completes
+            out.append({"op": "feed", "id": iid, "m": [176 + c, 38, rval(rng)]})
+            out.append({"op": "poll", "id": iid, "ch": c})
+            out.append({"op": "feed", "id": iid, "m": [176 + c, 96, 1]})
+            # (no reset() here: the executor would compare with a NEW scanner whose edge timeout is computed at a
+            # later clock reading and therefore differs - an artefact of the script, not of the code)
+            if sleep:
+                break           # one real wait per k is enough
+    return out
+
+
 def saturation_battery(rng, kind, to, base_id=100):
     """C15: ALL 16 channels hold the same kind of partial progress at once (fed in channel order, in reverse or
     shuffled), then every channel is completed / polled, again in several orders.  Interleaved scanner (id base)
